@@ -324,6 +324,10 @@ def run(repo, res):
                   'the memo %s (attribute %s) does not store the value its first call returns (%s): repeated identical queries '
                   'get different answers' % (fi.qual, attr, why), sample='%s: first-call value == memoised value' % fi.qual)
 
+    from .. import api_model
+    api_model.apply(res, api_model.memo_decorator_model(repo), {'memo': 'C04-R6'}, 'supp/util.py', 0)
+    api_model.apply(res, api_model.evaluate_model(repo), {'guard': 'C04-R2'}, 'supp/evaluator.py', 0)
+
     # context_property ignores ctx in its key: ctx may only carry the project and the re-entrancy state
     ectx = get_facts(repo).classes.get('EvalCtx')
     if ectx is None:
